@@ -104,6 +104,19 @@ func genProgressSession(c *ctx) {
 		{kind: "T", tick: "Z", z: 307200}, {kind: "T", tick: "S", z: 32768}, {kind: "R", z: 60}, {kind: "O"}, {kind: "K"},
 		{kind: "T", tick: "S", z: 131072}, {kind: "T", tick: "D"}, {kind: "E"},
 	}, "resize-then-stop-prompt-continue")
+	// a resize while the stop prompt is open, then "continue"
+	c.c20SessionHistory(&cur, base, 100, []c20Ev{
+		{kind: "B", pane: -1}, {kind: "T", tick: "N", z: 1}, {kind: "T", tick: "M", s: "a_file_with_a_fairly_long_name.bin"},
+		{kind: "T", tick: "Z", z: 307200}, {kind: "T", tick: "S", z: 32768}, {kind: "O"}, {kind: "R", z: 45}, {kind: "K"},
+		{kind: "T", tick: "S", z: 131072}, {kind: "T", tick: "D"}, {kind: "E"},
+	}, "resize-while-stop-prompt-open")
+	// a transfer that announces a tmux pane, resized, then one that does not
+	c.c20SessionHistory(&cur, base, 120, []c20Ev{
+		{kind: "B", pane: 80}, {kind: "T", tick: "N", z: 1}, {kind: "T", tick: "M", s: "in_a_pane.bin"}, {kind: "T", tick: "Z", z: 5000},
+		{kind: "T", tick: "S", z: 100}, {kind: "R", z: 50}, {kind: "T", tick: "S", z: 2000}, {kind: "T", tick: "D"}, {kind: "E"},
+		{kind: "B", pane: 80}, {kind: "T", tick: "N", z: 1}, {kind: "T", tick: "M", s: "pane_wider_than_terminal.bin"}, {kind: "T", tick: "Z", z: 5000},
+		{kind: "T", tick: "S", z: 100}, {kind: "T", tick: "D"}, {kind: "E"},
+	}, "pane-then-resize-then-pane-wider-than-terminal")
 	// widening instead of shrinking
 	c.c20SessionHistory(&cur, base, 60, []c20Ev{
 		{kind: "B", pane: -1}, {kind: "T", tick: "N", z: 1}, {kind: "T", tick: "M", s: "a.bin"}, {kind: "T", tick: "Z", z: 1000},
